@@ -12,6 +12,7 @@ import (
 	"log"
 	"os"
 	"path"
+	"strings"
 	"sync"
 	"time"
 
@@ -91,12 +92,15 @@ func (cl concurrentWriter) Write(al plugintypes.AuditLog) error {
 	cl.mux.Lock()
 	defer cl.mux.Unlock()
 
-	// Same output as log.Printf, but a failed write of the index entry is
-	// reported to the caller instead of being discarded.
-	var werr error
+	// Same output as a sequence of log.Printf calls (every piece on its own line), but
+	// handed to the logger in one call: the entry reaches the index file in a single
+	// write, so entries of several writers sharing that file cannot interleave, and a
+	// failed write of the index entry is reported to the caller instead of being discarded.
+	var entry strings.Builder
 	printf := func(format string, v ...any) {
-		if err := cl.log.Output(2, fmt.Sprintf(format, v...)); err != nil && werr == nil {
-			werr = err
+		fmt.Fprintf(&entry, format, v...)
+		if s := entry.String(); len(s) == 0 || s[len(s)-1] != '\n' {
+			entry.WriteByte('\n')
 		}
 	}
 
@@ -114,7 +118,7 @@ func (cl concurrentWriter) Write(al plugintypes.AuditLog) error {
 	}
 	printf("%s - %s\n", al.Transaction().ID(), filepath)
 
-	return werr
+	return cl.log.Output(2, entry.String())
 }
 
 var _ plugintypes.AuditLogWriter = (*concurrentWriter)(nil)
